@@ -83,8 +83,32 @@ EXOTIC_TYPES = ["Vec<Vec<Vec<Vec<String>>>>", "[u8; 32]", "&'static [i32]", "Box
 IDENTS = ["a", "データ", "größe", "r#type", "r#match", "_x", "__", "a1", "ünï", "Ω", "snake_case_name", "x9y", "r#async", "日本語", "camelCase", "SCREAMING", "ä_ö_ü"]
 
 
-def nested_generic(depth):
-    return "Vec<" * depth + "i32" + ">" * depth
+def nested_generic(depth, ctor="Vec"):
+    if ctor == "tuple1":
+        return "(" * depth + "i32" + ",)" * depth
+    if ctor == "Result":
+        return "Result<" * depth + "i32" + ", String>" * depth
+    if ctor == "HashMap":
+        return "HashMap<String, " * depth + "i32" + ">" * depth
+    if ctor == "mixed":
+        t = "i32"
+        for k in range(depth):
+            t = ["Option<%s>", "Vec<%s>", "Option<%s>", "HashMap<String, %s>", "Option<%s>", "(u8, %s)"][k % 6] % t
+        return t
+    return (ctor + "<") * depth + "i32" + ">" * depth
+
+
+DEEP_CTORS = ["Vec", "Option", "HashSet", "Box", "tuple1", "Result", "HashMap", "mixed"]
+DEEP_DEPTHS = [24, 40, 64]
+
+
+def deep_project(idx):
+    """one constructor nested 24 / 40 / 64 levels deep at every site (a small class of its own: when something is exponential in the depth,
+    every such input costs the whole CPU budget)"""
+    ctor = DEEP_CTORS[idx % len(DEEP_CTORS)]
+    ty = nested_generic(DEEP_DEPTHS[(idx // len(DEEP_CTORS)) % len(DEEP_DEPTHS)], ctor)
+    return [("lib.rs", HDR + "#[derive(Serialize, Deserialize)]\npub struct Deep%d {\n    pub v: %s,\n}\n\n" % (idx, ty) +
+             "#[tauri::command]\npub fn deep_%d(p: %s, ch: Channel<%s>) -> %s {\n    todo!()\n}\n\npub fn deep_ev_%d(app: AppHandle, x: %s) {\n    app.emit(\"deep\", x).unwrap();\n}\n" % (idx, ty, ty, ty, idx, ty))]
 
 
 def exotic_project(rnd, idx):
@@ -529,6 +553,9 @@ def run(tier):
     else:
         for (mode, via) in [("none", "cli"), ("zod", "cli"), ("zod", "driver"), ("none", "cli+viz+verbose")]:
             add("sizes", size_items, mode, via=via, bsize=12)
+    deep_items = [("deep-%d" % i, deep_project(i)) for i in range(len(DEEP_CTORS) * len(DEEP_DEPTHS))]
+    add("deep-nesting", deep_items, "none", bsize=6)
+    add("deep-nesting", deep_items, "zod", bsize=6)
     nonrust = [("non-rust-%d" % i, [("f.rs", t), ("ok.rs", "#[tauri::command]\npub fn ok_cmd() {}\n")]) for i, t in enumerate(NON_RUST)]
     add("non-rust", nonrust, "none", bsize=4)
     add("non-rust", nonrust, "zod", via="driver", bsize=4)
